@@ -174,6 +174,27 @@ type c16Resp struct {
 	Msg   string `json:"msg,omitempty"`
 	Us    int64  `json:"us"`
 	Wf    string `json:"wf,omitempty"` // a well-formedness defect of an accepted AST
+	Deps  [][]string `json:"deps,omitempty"` // DependModule of every struct, then of every interface (sorted): the generated imports
+}
+
+// the modules checkDepTName recorded for the imports of each struct's / interface's generated file
+func c16Deps(m *ast.Module) [][]string {
+	out := [][]string{}
+	set := func(d map[string]bool) []string {
+		l := []string{}
+		for k := range d {
+			l = append(l, k)
+		}
+		sort.Strings(l)
+		return l
+	}
+	for _, st := range m.Struct {
+		out = append(out, set(st.DependModule))
+	}
+	for _, it := range m.Interface {
+		out = append(out, set(it.DependModule))
+	}
+	return out
 }
 
 // what every accepted program must satisfy whatever the model says: struct tags strictly ascending (checkTag + sortTag)
@@ -205,6 +226,57 @@ func c16AstDefect(m *ast.Module) string {
 			return unresolved(t.TypeV)
 		}
 		return ""
+	}
+	// every module a struct's / interface's generated file names (Mod::T -> Mod.T) is recorded for its imports
+	var named func(t *ast.VarType, acc map[string]bool)
+	named = func(t *ast.VarType, acc map[string]bool) {
+		if t == nil {
+			return
+		}
+		switch t.Type {
+		case token.Name:
+			if i := strings.Index(t.TypeSt, "::"); i >= 0 {
+				acc[t.TypeSt[:i]] = true
+			}
+		case token.TVector, token.TArray:
+			named(t.TypeK, acc)
+		case token.TMap:
+			named(t.TypeK, acc)
+			named(t.TypeV, acc)
+		}
+	}
+	missing := func(acc map[string]bool, dep map[string]bool) string {
+		var l []string
+		for k := range acc {
+			if !dep[k] {
+				l = append(l, k)
+			}
+		}
+		sort.Strings(l)
+		return strings.Join(l, ",")
+	}
+	for _, st := range m.Struct {
+		acc := map[string]bool{}
+		for _, mb := range st.Mb {
+			named(mb.Type, acc)
+		}
+		if s := missing(acc, st.DependModule); s != "" {
+			return fmt.Sprintf("struct %s names types of module %s, which is not recorded for the imports of its generated file (recorded: %v)", st.Name, s, c16Deps(&ast.Module{Struct: []ast.Struct{st}}))
+		}
+	}
+	for _, it := range m.Interface {
+		acc := map[string]bool{}
+		for _, f := range it.Funcs {
+			for _, a := range f.Args {
+				named(a.Type, acc)
+			}
+			if f.HasRet {
+				named(f.RetType, acc)
+			}
+		}
+		if s := missing(acc, it.DependModule); s != "" {
+			return fmt.Sprintf("interface %s names types of module %s, which is not recorded for the imports of its generated file", it.Name, s)
+		}
 	}
 	for _, st := range m.Struct {
 		for _, mb := range st.Mb {
@@ -267,7 +339,7 @@ func c16ParseOnce(dir string, rq c16Req) (rs c16Resp) {
 	if c16HasSeveralModules(tf) {
 		return c16Resp{Class: "multi", Ast: B(c16SerModule(&tf.Module)), Wf: c16AstDefect(&tf.Module)}
 	}
-	return c16Resp{Class: "ok", Ast: B(c16SerModule(&tf.Module)), Wf: c16AstDefect(&tf.Module)}
+	return c16Resp{Class: "ok", Ast: B(c16SerModule(&tf.Module)), Wf: c16AstDefect(&tf.Module), Deps: c16Deps(&tf.Module)}
 }
 
 // a further module of the same file is recorded like an included file, with the file's own source name
@@ -476,6 +548,7 @@ type c16Case struct {
 	Text  string `json:"text,omitempty"` // the input as text when printable
 	Mod   *c16Module `json:"mod,omitempty"` // kind tv: the program's structure (replay re-derives the expectations from it)
 	Files map[string]B `json:"files,omitempty"` // the files beside in.tars (include cases)
+	Deps  [][]string   `json:"deps,omitempty"`  // observed: modules recorded for the imports, per struct then per interface
 }
 
 func c16Printable(b []byte) bool {
@@ -584,7 +657,15 @@ func c16CoqCase(c *c16Case) string {
 		for _, n := range names {
 			fl = append(fl, fmt.Sprintf("(%s, %s)", hx([]byte(n)), hx(c.Files[n])))
 		}
-		return fmt.Sprintf("(%s, [%s], %s)", hx(c.Input), strings.Join(fl, "; "), obs)
+		var dl []string
+		for _, d := range c.Deps {
+			var hs []string
+			for _, x := range d {
+				hs = append(hs, hx([]byte(x)))
+			}
+			dl = append(dl, "["+strings.Join(hs, "; ")+"]")
+		}
+		return fmt.Sprintf("(%s, [%s], %s, [%s])", hx(c.Input), strings.Join(fl, "; "), obs, strings.Join(dl, "; "))
 	}
 	return fmt.Sprintf("(%s, %s)", hx(c.Input), obs)
 }
@@ -611,7 +692,7 @@ func c16Main(a Args) {
 		json.Unmarshal(b, &rf)
 		var c c16Case
 		if len(rf.Case) > 0 && json.Unmarshal(rf.Case, &c) == nil && (len(c.Input) > 0 || c.Kind != "") {
-			c.Class, c.Ast, c.Msg = "", nil, ""
+			c.Class, c.Ast, c.Msg, c.Deps = "", nil, "", nil
 			cases = append(cases, c)
 		}
 	} else {
@@ -635,7 +716,7 @@ func c16Main(a Args) {
 	var casesFs []json.RawMessage
 	for i := range cases {
 		c := &cases[i]
-		c.Class, c.Ast, c.Msg = rs[i].Class, rs[i].Ast, rs[i].Msg
+		c.Class, c.Ast, c.Msg, c.Deps = rs[i].Class, rs[i].Ast, rs[i].Msg, rs[i].Deps
 		if c.Class == "fatal" {
 			c.Class = "err"
 		}
@@ -647,6 +728,9 @@ func c16Main(a Args) {
 			sig := "tars2go/parse/accepts-struct-with-unordered-tags"
 			if strings.Contains(rs[i].Wf, "resolved") {
 				sig = "tars2go/parse/accepts-unresolved-type"
+			}
+			if strings.Contains(rs[i].Wf, "imports") {
+				sig = "tars2go/parse/defining-module-not-imported"
 			}
 			res.Failures = append(res.Failures, Failure{Sig: sig, Desc: fmt.Sprintf("parse.NewParse accepts %q but %s", c16Trunc(string(c.Input), 200), rs[i].Wf), Replay: *c})
 		}
